@@ -249,10 +249,16 @@ func Accept(ft *FileTrace, counting bool) []Problem {
 	known := false // content known (after a first read/write/load inside the trace)
 	content := ""  // hash of file content, "" = empty or absent
 	var rd, ap Norm
+	alt, altOK := "", false // an alternative content left by a writer that died between apply and the logged write
 	for i, n := range ft.Events {
 		if n.Ev == "crash" {
 			// the process is gone: the kernel has released its flock; whatever it had truncated stays truncated
 			if holder == n.A {
+				// a process that dies right after it applied its update may or may not have done the write(2): the hook
+				// that logs the write comes after the system call.  Both contents are possible from here on.
+				if phase == "applied" {
+					alt, altOK = ap.H, true
+				}
 				holder, phase = 0, ""
 			}
 
@@ -287,6 +293,10 @@ func Accept(ft *FileTrace, counting bool) []Problem {
 				break
 			}
 			if !n.Z {
+				if known && n.H != content && altOK && n.H == alt {
+					content = alt
+				}
+				altOK = false
 				if known && n.H != content {
 					add(i, "C14:stale-read", fmt.Sprintf("update by process #%d read a record different from the last one written (event %d)", n.A, n.Raw))
 				}
@@ -335,6 +345,10 @@ func Accept(ft *FileTrace, counting bool) []Problem {
 			phase = "written"
 		case "load":
 			if n.OK {
+				if known && n.H != content && altOK && n.H == alt {
+					content = alt
+				}
+				altOK = false
 				if known && n.H != content {
 					add(i, "C14:stale-load", fmt.Sprintf("Load by process #%d returned a record different from the last one written (event %d)", n.A, n.Raw))
 				}
